@@ -349,6 +349,9 @@ def gen_cells_program(cells: list) -> dict:
             raise ValueError(cons)
         if via == "direct":
             body.append(_api_stmts(api, arg, nm, dq_site))
+        elif via == "closure":
+            # the API is called inside a function literal that captures the value
+            body.append("\tfn := func() {\n" + _api_stmts(api, arg, nm, dq_site, "\t\t") + "\t}\n\tfn()\n")
         else:
             hq = "" if api_pkg == site else api_pkg + "."
             hname = nm["h"] if api_pkg == site else nm["H"]
